@@ -18,7 +18,7 @@ RULE = ('cases = (stabilizer state of any rank 0<=r<=N and sign pattern, subsyst
 ASSUMPTIONS = ['entropies are integers (bits); tolerance 1e-9', 'z2rank destroys its argument by documentation: only the return value is checked']
 
 
-FORMS = ['indices', 'mask', 'tuple', 'int-array', 'bool-list', 'int32-array-reversed', 'uint8-array', 'indices-reversed']
+FORMS = ['indices', 'mask', 'tuple', 'int-array', 'bool-list', 'int32-array-reversed', 'uint8-array', 'indices-reversed', 'negative-indices']
 
 
 def _ent(be, S, region, form, N):
@@ -27,7 +27,7 @@ def _ent(be, S, region, form, N):
     form = {False: 'indices', True: 'mask'}.get(form, form)
     m = np.zeros(N, dtype=np.bool_); m[list(region)] = True
     if len(region) == 0 and form not in ('mask', 'bool-list'):
-        arg = {'indices': [], 'tuple': (), 'indices-reversed': []}.get(form, np.array([], dtype={'int32-array-reversed': np.int32, 'uint8-array': np.uint8}.get(form, np.int64)))
+        arg = {'indices': [], 'tuple': (), 'indices-reversed': [], 'negative-indices': []}.get(form, np.array([], dtype={'int32-array-reversed': np.int32, 'uint8-array': np.uint8}.get(form, np.int64)))
     elif form == 'mask':
         arg = m
     elif form == 'bool-list':
@@ -42,6 +42,8 @@ def _ent(be, S, region, form, N):
         arg = np.array(list(region), dtype=np.uint8)
     elif form == 'indices-reversed':
         arg = list(region)[::-1]
+    elif form == 'negative-indices':             # qubits counted from the end, as NumPy / torch indexing allows (every other qubit, so forms are mixed)
+        arg = [q - N if i % 2 == 0 else q for i, q in enumerate(region)]
     else:
         arg = list(region)
     snap = B.snapshot(S)
@@ -68,7 +70,7 @@ def f_entropy(case):
             if abs(d - exp) > 1e-9:
                 from harness.core import HarnessError
                 raise HarnessError('oracles disagree: formula %r dense %r' % (exp, d))
-        for form in (FORMS if be == 'np' else ['indices', 'tuple']):
+        for form in (FORMS if be == 'np' else ['indices', 'tuple', 'negative-indices']):
             v = _ent(be, S, region, form, N)
             check(abs(v - exp) < 1e-9, 'entropy(%s as %s) = %r expected %r; stabilizers %s r=%d' % (
                 region, form, v, exp, list(G.canonical()), r), 'entropy')
@@ -76,7 +78,7 @@ def f_entropy(case):
         if 0 < len(region) < N and (r > 0 or exp >= 1):
             nt_sub.append(idx)
     check(full[tuple([0] * N)] == 0 and full[tuple([1] * N)] == r, 'oracle sanity', 'oracle')
-    return {'nt': True, 'nt_sub': nt_sub, 'sub_evals': 2 ** N * (len(FORMS) if be == 'np' else 2), 'labels': ['N=%d' % N, 'r=%d' % r, 'maxS=%d' % max(full.values())]}
+    return {'nt': True, 'nt_sub': nt_sub, 'sub_evals': 2 ** N * (len(FORMS) if be == 'np' else 3), 'labels': ['N=%d' % N, 'r=%d' % r, 'maxS=%d' % max(full.values())]}
 
 
 def st_entropy(be, loN, hiN):
